@@ -1,2 +1,3 @@
 pub mod nan;
+pub mod quant;
 pub mod sel;
